@@ -5,6 +5,8 @@ f5_0:
   ret
   call f10_1
   call f6_1
+  mov wvsv2@GOTPCREL(%rip),%rax
+  mov wvsv0(%rip),%rax
   ret
 .section .text.f5_1,"ax",@progbits
 .globl f5_1
@@ -17,6 +19,10 @@ f5_1:
   call f22_0
   call f5_0
   lea d_f5_1(%rip),%rax
+  mov wvsv1@GOTPCREL(%rip),%rax
+  mov wvsv2@GOTPCREL(%rip),%rax
+  mov wvsv1(%rip),%rax
+  mov wvsv2(%rip),%rax
   ret
 .section .data.d_f5_1,"aw",@progbits
 .globl d_f5_1
